@@ -3,11 +3,17 @@ import itertools
 from bounded.common import Suite, FmtStr, Chunk, fmtstr, cells
 from cwcwidth import wcwidth, wcswidth
 
-LEVEL = "exploration"
+LEVEL = "proof"
 ASSUMPTIONS = [
     "ChunkSplitter.request is proved against its contract (next unread characters plus at most one pad, width <= max_width, greedy, "
-    "offset/width bookkeeping) for all runs and widths; the generator _width_aware_splitlines that drives it across runs and lines is "
-    "decided by an exhaustive bounded suite only (stated bound)",
+    "offset/width bookkeeping, non-empty chunk, reported width = width of the chunk) for all runs and widths; the generator "
+    "_width_aware_splitlines that drives it across runs and lines is proved over that contract (nested loop invariants, yields as a ghost "
+    "output sequence, a ghost trace of what was taken from the source and what was emitted): every character is taken exactly once in order "
+    "with its formatting, the lines hold exactly what was emitted, a pad is always the last thing on its line, no line is empty or wider "
+    "than `columns`, every line but the last is exactly `columns` wide; ChunkSplitter.reinit and the public wrapper (ValueError iff "
+    "columns < 2 or unmeasurable text) are verified too",
+    "generator semantics: the body runs to completion and the yielded values are observed as a sequence (the values are immutable FmtStr; "
+    "interleaved consumption of several iterators is covered by the bounded suite)",
     "cwcwidth.wcswidth is additive over concatenation and single characters have width 0, 1 or 2",
     "cwcwidth.wcwidth of the three alphabet characters is 1, 2, 0 (probed on every run)",
     "zero-width characters: compared up to placement (they must not be lost, invented or re-formatted)",
@@ -151,5 +157,6 @@ def bounded(check, tier):
 def run(check, tier, seed):
     import contracts.splitter as SP
     from pyvc.verify import verify
-    verify(SP.request, tier, check)
+    for c in SP.GENERATOR_CONTRACTS:
+        verify(c, tier, check)
     bounded(check, tier)
